@@ -56,7 +56,9 @@ def run(F, res, tier):
     else:
         res.ob("N1", "build_tree/name-kinds-default-arm", "NAME/NAME_REF/TYPE_NAME/LABEL are opened by build_tree's default arm",
                not (special & set(NAME_LIKE)), where=bt.loc(), how="special-cased kinds: %s" % sorted(special))
-        eat = [b for b, t in bt.calls() if callee(t) == "syntax::parser::Parser::build_tree::{closure#0}" and bt.can_reach(default_tgt, [b])]
+        from rules import c01 as _c01
+        em = _c01.emitter(F)
+        eat = [b for b, t in bt.calls() if callee(t) == em and bt.can_reach(default_tgt, [b])]
         starts = [b for b, t in bt.calls() if (callee(t) or "").endswith("GreenNodeBuilder::start_node") and bt.can_reach(default_tgt, [b])]
         # nearest ones: the eat that is dominated by default_tgt and dominates a start_node
         ok = any(bt.dominates(default_tgt, e) and any(bt.dominates(e, s) and bt.dominates(default_tgt, s) for s in starts) for e in eat)
